@@ -709,6 +709,14 @@ func writeEvidence(prop string, spec propSpec, f flags, all, viol, inconclusive 
 	for i, r := range inconclusive {
 		if i < 5 {
 			inc = append(inc, fmt.Sprintf("seed %d: %s", r.Seed, firstLine(r.Infra)))
+			// keep the case for inspection (an inconclusive run is never reported as a violation)
+			if r.caseJSON != nil {
+				dir := filepath.Join(verifDir, "replays", prop)
+				os.MkdirAll(dir, 0o755)
+				var c any
+				decodeJSON(r.caseJSON, &c)
+				writeJSON(filepath.Join(dir, fmt.Sprintf("inconclusive-%d.json", r.Seed)), map[string]any{"property": prop, "seed": r.Seed, "variant": r.variant, "case": c, "inconclusive": r.Infra})
+			}
 		}
 	}
 	cov := map[string]any{
